@@ -71,4 +71,6 @@ Section NPNum.
   (* (X.T * y): row i of X scaled by y_i (kept untransposed);  A.T.dot(B) *)
   Definition nn_scale_rows (y : vec) (X : mat) : mat := map2 vscale y X.
   Definition nn_dot_tm (A B : mat) : mat := mmulg (transp A) B.
+  (* A.dot(B.T): entry (a, i) = row a of A . row i of B *)
+  Definition nn_dot_mt (A B : mat) : mat := map (fun r => map (vdot r) B) A.
 End NPNum.
